@@ -38,6 +38,7 @@ import (
 
 	"github.com/hknutzen/Netspoc-Approve/go/pkg/doapprove"
 	"github.com/hknutzen/Netspoc-Approve/go/pkg/drc"
+	"github.com/hknutzen/Netspoc-Approve/go/pkg/program"
 )
 
 func main() {
@@ -60,7 +61,8 @@ func main() {
 	Main(map[string]PropFunc{"C06": func(c *Ctx) *Result { return run(c, "C06") }, "C11": func(c *Ctx) *Result { return run(c, "C11") }})
 }
 
-const devName = "router"
+// default expected device name
+const defaultDevName = "router"
 const us = "\x1f"
 
 type Case struct {
@@ -99,6 +101,38 @@ type Case struct {
 	GroupPages  int `json:"group_pages,omitempty"`
 	// PAN-OS: PEND answers of the commit job before OK
 	Pend int `json:"pend,omitempty"`
+	// expected device name ("" = router) and the name the device reports ("" = according to Host)
+	DevName  string `json:"dev_name,omitempty"`
+	Reported string `json:"reported,omitempty"`
+	// the `checkbanner` line(s) of the configuration file, verbatim (overrides Marker / BannerRe)
+	HasCfgLine bool   `json:"has_cfg_line,omitempty"`
+	CfgLine    string `json:"cfg_line,omitempty"`
+}
+
+// configured: what the configuration file says about the banner (specification side): the
+// whole text after `checkbanner =`; not configured if there is no well-formed line.
+func (c Case) configured() (text string, ok bool) {
+	if !c.HasCfgLine {
+		if c.Marker == "unconfigured" {
+			return "", false
+		}
+		return c.bannerRe(), true
+	}
+	for _, line := range strings.Split(c.CfgLine, "\n") {
+		f := strings.Fields(line)
+		if len(f) >= 3 && f[0] == "checkbanner" && f[1] == "=" {
+			return strings.Join(f[2:], " "), true
+		}
+	}
+	return "", false
+}
+
+// dev: the expected device name (name of the code file / entry of name_list)
+func (c Case) dev() string {
+	if c.DevName != "" {
+		return c.DevName
+	}
+	return defaultDevName
 }
 
 func (c Case) bannerRe() string {
@@ -121,10 +155,34 @@ func (c Case) markerText() string {
 
 // markerShown (specification side, Go's regexp): does the text the device shows carry the marker?
 // ASA/IOS: anywhere in the banner; Linux: in one line of /etc/issue.
-func (c Case) markerShown() bool {
-	re, err := regexp.Compile(c.bannerRe())
-	if err != nil {
+// cfgRejected (specification side): the configuration file is not acceptable — the first well-formed
+// checkbanner line has several values or its value is no regexp.  Such a run must end in
+// LoadConfig: exit 1, a diagnostic, no device contacted.
+func (c Case) cfgRejected() bool {
+	if !c.HasCfgLine {
 		return false
+	}
+	for _, line := range strings.Split(c.CfgLine, "\n") {
+		f := strings.Fields(line)
+		if len(f) >= 3 && f[0] == "checkbanner" && f[1] == "=" {
+			if len(f) > 3 {
+				return true
+			}
+			_, err := regexp.Compile(f[2])
+			return err != nil
+		}
+	}
+	return false
+}
+
+func (c Case) markerShown() bool {
+	text, ok := c.configured()
+	if !ok {
+		return true // nothing configured: nothing to find
+	}
+	re, err := regexp.Compile(text)
+	if err != nil {
+		return false // what is configured cannot be found
 	}
 	if c.Backend == "linux" {
 		for _, l := range strings.Split(c.markerText(), "\n") {
@@ -176,29 +234,37 @@ func (c Case) canon() string { return JSONStr(c) }
 func (c Case) isHTTP() bool { return c.Backend == "panos" || c.Backend == "nsx" }
 
 func (c Case) reportedName() string {
+	if c.Reported != "" {
+		return c.Reported
+	}
+	d := c.dev()
 	switch c.Host {
 	case "other":
 		return "xyz"
 	case "prefix":
-		return devName + "2"
+		return d + "2"
 	case "shorter":
-		return devName[:len(devName)-1]
+		return d[:len(d)-1]
 	case "case":
-		return strings.ToUpper(devName[:1]) + devName[1:]
+		if strings.ToUpper(d[:1]) != d[:1] {
+			return strings.ToUpper(d[:1]) + d[1:]
+		}
+		return strings.ToLower(d[:1]) + d[1:]
 	}
-	return devName
+	return d
 }
 
 // interlock that must refuse the approve run (specification side), "" if none applies.
 func (c Case) interlock() string {
 	switch {
-	case c.Backend != "nsx" && c.Host != "ok":
+	case c.Backend != "nsx" && c.reportedName() != c.dev():
+		// every backend compares the complete names, nothing else counts as the same name
 		return "hostname"
 	case c.Backend == "panos" && !haPermits(c.HA):
 		return "ha"
 	case c.Backend == "panos" && strings.ContainsAny(c.marks(), "us"):
 		return "marker"
-	case c.Backend != "nsx" && c.Backend != "panos" && c.Marker != "unconfigured" && !c.markerShown():
+	case c.Backend != "nsx" && c.Backend != "panos" && !c.markerShown():
 		return "marker"
 	}
 	return ""
@@ -322,9 +388,9 @@ var haAll = []string{"off",
 
 func (c Case) names() []string {
 	if c.Backend == "panos" && c.HA == "passive-then-active" {
-		return []string{devName + "-a", devName}
+		return []string{c.dev() + "-a", c.dev()}
 	}
-	return []string{devName}
+	return []string{c.dev()}
 }
 
 func (c Case) vsys() []Vsys {
@@ -364,7 +430,7 @@ type runResult struct {
 func (r runResult) diag() bool {
 	// an ERROR>>> line, or the usage message of a front end
 	return strings.Contains(r.stderr, "ERROR>>>") || strings.Contains(r.stdout, "ERROR>>>") ||
-		strings.Contains(r.stderr, "Usage:")
+		strings.Contains(r.stderr, "Usage:") || strings.HasPrefix(r.stderr, "Error: ") || strings.Contains(r.stderr, "\nError: ")
 }
 
 type world struct {
@@ -381,7 +447,9 @@ func (w *world) prepare(c Case) {
 		to = "1"
 	}
 	cfg := "basedir = " + w.dir + "\nsystemuser = admin\ntimeout = " + to + "\nlogin_timeout = " + to + "\n"
-	if c.Marker != "unconfigured" {
+	if c.HasCfgLine {
+		cfg += c.CfgLine + "\n"
+	} else if c.Marker != "unconfigured" {
 		cfg += "checkbanner = " + c.bannerRe() + "\n"
 	}
 	files := map[string]string{".netspoc-approve": cfg, "credentials": "* admin secret\n"}
@@ -396,12 +464,12 @@ func (w *world) prepare(c Case) {
 		ips[i] = fmt.Sprintf("10.1.13.%d", 33+i)
 	}
 	info, _ := json.Marshal(map[string]any{"model": model, "name_list": names, "ip_list": ips})
-	files[codeDir+"/"+devName+".info"] = string(info)
+	files[codeDir+"/"+c.dev()+".info"] = string(info)
 	if c.isHTTP() {
-		files[codeDir+"/"+devName] = c.httpNetspoc()
+		files[codeDir+"/"+c.dev()] = c.httpNetspoc()
 	} else {
 		_, _, netspoc := c.cliTexts()
-		files[codeDir+"/"+devName] = netspoc
+		files[codeDir+"/"+c.dev()] = netspoc
 	}
 	WriteFiles(w.dir, files)
 	for _, d := range []string{"lock", "status", "history", "log"} {
@@ -415,7 +483,7 @@ func (w *world) prepare(c Case) {
 func (w *world) cliScenario(c Case, compare bool, transcript string) CliScn {
 	devConfig, routes, _ := c.cliTexts()
 	scn := CliScn{Type: map[string]string{"asa": "ASA", "ios": "IOS", "linux": "Linux"}[c.Backend],
-		PromptName: devName, Hostname: c.reportedName(), HostKey: c.HostKey, Login: c.Login,
+		PromptName: c.dev(), Hostname: c.reportedName(), HostKey: c.HostKey, Login: c.Login,
 		PagerOff: c.PagerOff, Width511: c.Width511, Config: devConfig, Routes: routes, IPTables: iptablesText,
 		FaultAt: -1, Transcript: transcript}
 	if c.Backend == "ios" {
@@ -463,7 +531,7 @@ func (w *world) runOnce(c Case, compare bool, tag string) runResult {
 		if c.OddAction {
 			verb = c.Action
 		}
-		args = []string{"run", "do-approve", verb, devName}
+		args = []string{"run", "do-approve", verb, c.dev()}
 	} else {
 		args = []string{"run", "drc"}
 		if !c.NoLog {
@@ -472,7 +540,7 @@ func (w *world) runOnce(c Case, compare bool, tag string) runResult {
 		if compare {
 			args = append(args, "-C")
 		}
-		args = append(args, filepath.Join("code", devName))
+		args = append(args, filepath.Join("code", c.dev()))
 	}
 	var sim *httpSim
 	transcript := filepath.Join(w.dir, "transcript."+tag)
@@ -493,7 +561,7 @@ func (w *world) runOnce(c Case, compare bool, tag string) runResult {
 	} else if c.Perl {
 		scnFile := filepath.Join(w.dir, "scenario."+tag)
 		os.WriteFile(scnFile, []byte(perlScenario(c)), 0644)
-		env = append(env, "SIMULATE_ROUTER="+w.self+" tee "+transcript+" "+w.perl+" "+devName+" "+scnFile)
+		env = append(env, "SIMULATE_ROUTER="+w.self+" tee "+transcript+" "+w.perl+" "+defaultDevName+" "+scnFile)
 		initial = "perl"
 	} else {
 		scn := w.cliScenario(c, compare, transcript)
@@ -543,7 +611,7 @@ func (w *world) runOnce(c Case, compare bool, tag string) runResult {
 		if c.Front == "do-approve" {
 			logDir = filepath.Join(w.dir, "policies", "p1", "log")
 		}
-		if data, err := os.ReadFile(filepath.Join(logDir, devName+".cmp")); err == nil {
+		if data, err := os.ReadFile(filepath.Join(logDir, c.dev()+".cmp")); err == nil {
 			res.plan = parsePlan(c, string(data))
 		}
 	}
@@ -615,6 +683,9 @@ func modelLine(c Case, compare bool, plan []string) string {
 	if c.Marker == "unconfigured" {
 		banner = "-"
 	}
+	if c.HasCfgLine {
+		banner = "cfg:" + esc("basedir = /x\n"+c.CfgLine+"\n")
+	}
 	fault := "-"
 	if compare && c.FaultAt >= 0 {
 		fault = strconv.Itoa(c.FaultAt)
@@ -630,7 +701,7 @@ func modelLine(c Case, compare bool, plan []string) string {
 	if c.Backend == "panos" {
 		vs = strings.Join(c.managedVsys(), ",")
 	}
-	f := []string{c.Backend, mode, devName, strings.Join(c.names(), ","), banner, vs, fault, strings.Join(pl, us)}
+	f := []string{c.Backend, mode, c.dev(), strings.Join(c.names(), ","), banner, vs, fault, strings.Join(pl, us)}
 	add := func(key, occ, reply string) { f = append(f, key+us+occ+us+reply) }
 	T := func(s string) string { return "T:" + esc(s) }
 	w := &world{}
@@ -656,6 +727,8 @@ func modelLine(c Case, compare bool, plan []string) string {
 		}
 		if scn.Login == "enable-pass" {
 			add("L:enable", "*", T("enable\nPassword:"))
+		} else if scn.Login == "enable-refused" {
+			add("L:enable", "*", T("enable\n% Access denied\n"+p+">"))
 		} else {
 			add("L:enable", "*", T("enable\n"+p+"#"))
 		}
@@ -697,7 +770,8 @@ func modelLine(c Case, compare bool, plan []string) string {
 		add("P", "*", T("secret\n"+prompt))
 		add("L:hostname -s", "*", T(scn.Hostname+"\n"))
 		grep := ""
-		if re, err := regexp.Compile(c.bannerRe()); err == nil {
+		cfgText, _ := c.configured()
+		if re, err := regexp.Compile(cfgText); err == nil && cfgText != "" {
 			for _, l := range strings.Split(scn.Issue, "\n") {
 				if l != "" && re.MatchString(l) {
 					grep += l + "\n"
@@ -1009,6 +1083,41 @@ func matrix(ctx *Ctx, prop string) []Case {
 			}
 		}
 	}
+	// expected name × reported name: dots, letter case, prefixes and extensions — every backend that asks for the name
+	namePairs := [][2]string{{"fw.dmz2", "fw"}, {"fw.dmz2", "fw.dmz2"}, {"fw.dmz2", "fw.dmz1"}, {"fw.dmz2", "FW.DMZ2"}, {"fw", "fw.dmz2"},
+		{"fw1", "fw"}, {"fw", "fw1"}, {"FW", "fw"}, {"fw", "FW"}, {"fw", "fw"}, {"a.b.c", "a.b"}, {"a.b.c", "a"}, {"fw-1", "fw"}, {"fw_dmz", "fw"}}
+	for _, b := range []string{"asa", "ios", "linux", "panos"} {
+		for i, np := range namePairs {
+			fr := fronts[i%2]
+			if !ctx.Thorough() && b != "linux" && i%2 == 1 && i > 3 {
+				continue
+			}
+			out = append(out, Case{Backend: b, Front: fr, Host: "ok", Marker: "present", HA: "off", Pending: 1, FaultAt: -1,
+				DevName: np[0], Reported: np[1]})
+		}
+	}
+	out = append(out, Case{Backend: "nsx", Front: "drc", Host: "ok", Marker: "present", HA: "off", Pending: 1, FaultAt: -1, DevName: "nsx.mgr1"})
+	// the checkbanner line of the configuration file, verbatim, × what the device shows
+	cfgLines := []string{"checkbanner = managed by NetSPoC", "checkbanner = \"managed by NetSPoC\"", "checkbanner = NetSPoC   ",
+		"\tcheckbanner\t=\tNetSPoC", "checkbanner = managed.by.NetSPoC", "checkbanner = managed NetSPoC", "checkbanner = This system",
+		"checkbanner = Net(SPoC", "checkbanner = [Nn]etSPoC", "checkbanner = ", "checkbanner=NetSPoC", "# checkbanner = NetSPoC",
+		"checkbanner = NetSPoC\ncheckbanner = managed by", "checkbanner = managed\ncheckbanner = NetSPoC", "checkbanner = NetSPoC # the marker"}
+	shown := []string{"This system is managed by ACME IT", "This system is managed by NetSPoC"}
+	for _, b := range []string{"asa", "ios", "linux"} {
+		for i, cl := range cfgLines {
+			for j, sh := range shown {
+				if !ctx.Thorough() && b == "ios" && (i+j)%2 == 1 {
+					continue
+				}
+				out = append(out, Case{Backend: b, Front: fronts[(i+j)%2], Host: "ok", Marker: "present", HA: "off", Pending: 1, FaultAt: -1,
+					HasCfgLine: true, CfgLine: cl, MarkerText: sh})
+			}
+		}
+	}
+	// login: `enable` is refused without asking for a password
+	for _, b := range []string{"asa", "ios"} {
+		out = append(out, Case{Backend: b, Front: "drc", Host: "ok", Marker: "present", HA: "off", Pending: 1, FaultAt: -1, Login: "enable-refused"})
+	}
 	// PAN-OS display-names: other letter case, inside a longer word, broken by a blank
 	for _, marks := range []string{"U", "x", "s", "mU", "sm", "xs", "Ux"} {
 		for _, pend := range []int{0, 1} {
@@ -1066,10 +1175,10 @@ func randomCase(r *RNG, prop string) Case {
 	c.HostKey = !c.isHTTP() && r.Chance(30)
 	switch b {
 	case "asa":
-		c.Login = Pick(r, []string{"enable-pass", "enable-nopass", "direct"})
+		c.Login = Pick(r, []string{"enable-pass", "enable-nopass", "direct", "enable-pass", "enable-nopass", "direct", "enable-refused"})
 		c.PagerOff, c.Width511 = r.Bool(), r.Bool()
 	case "ios":
-		c.Login = Pick(r, []string{"enable-pass", "enable-nopass", "direct"})
+		c.Login = Pick(r, []string{"enable-pass", "enable-nopass", "direct", "enable-pass", "enable-nopass", "direct", "enable-refused"})
 	case "linux":
 		c.Login = Pick(r, []string{"pass", "nopass"})
 	case "panos":
@@ -1112,6 +1221,22 @@ func randomCase(r *RNG, prop string) Case {
 		}
 	case "nsx":
 		c.NsxPolicies, c.PageSize, c.GroupPages = r.Intn(3), r.Intn(3), r.Intn(3)
+	}
+	if b != "nsx" && r.Chance(25) {
+		np := Pick(r, [][2]string{{"fw.dmz2", "fw"}, {"fw.dmz2", "fw.dmz2"}, {"fw", "fw.dmz2"}, {"fw1", "fw"}, {"fw", "fw1"}, {"FW", "fw"},
+			{"a.b.c", "a.b"}, {"r-1.x", "r-1.x"}, {"r-1.x", "r-1"}})
+		c.DevName, c.Reported = np[0], np[1]
+		if c.HA == "passive-then-active" {
+			c.HA = "off"
+		}
+	}
+	if (b == "asa" || b == "ios" || b == "linux") && r.Chance(20) {
+		c.HasCfgLine = true
+		c.CfgLine = Pick(r, []string{"checkbanner = managed by NetSPoC", "checkbanner = NetSPoC   ", "checkbanner = managed NetSPoC",
+			"checkbanner = Net(SPoC", "checkbanner = ", "checkbanner=NetSPoC", "checkbanner = NetSPoC\ncheckbanner = managed by",
+			"checkbanner = This system", "checkbanner = managed\ncheckbanner = NetSPoC"})
+		c.MarkerText = Pick(r, []string{"This system is managed by ACME IT", "This system is managed by NetSPoC", "NetSPoC"})
+		c.BannerRe = ""
 	}
 	if l := errOnCmds[b]; len(l) > 0 && r.Chance(25) {
 		c.ErrOn = Pick(r, l)
@@ -1246,6 +1371,12 @@ func judge(res *Result, o outcome, prop string, mu *sync.Mutex) {
 	if c.Pend > 0 {
 		res.Count(fmt.Sprintf("commit-job-pend:%d", c.Pend))
 	}
+	if c.DevName != "" || c.Reported != "" {
+		res.Count("expected/reported name:" + c.dev() + "/" + c.reportedName())
+	}
+	if c.HasCfgLine {
+		res.Count("config line:" + strconv.Quote(c.CfgLine))
+	}
 	if c.OddAction {
 		res.Count("action-word:" + strconv.Quote(c.Action))
 	}
@@ -1323,7 +1454,7 @@ func judge(res *Result, o outcome, prop string, mu *sync.Mutex) {
 		}
 		if bad != "" {
 			res.Fail(map[string]any{"pred": "doapprove_action_word_not_exact", "backend": c.Backend},
-				fmt.Sprintf("do-approve %q %s: %s", c.Action, devName, bad), c)
+				fmt.Sprintf("do-approve %q %s: %s", c.Action, c.dev(), bad), c)
 		} else {
 			res.Count("usage:odd-action")
 		}
@@ -1379,7 +1510,23 @@ func judge(res *Result, o outcome, prop string, mu *sync.Mutex) {
 		} else {
 			res.Count("refused:" + il)
 		}
-	case c.BadConfig:
+	case c.cfgRejected():
+		bad := ""
+		switch {
+		case len(a.lines) > 0:
+			bad = fmt.Sprintf("device contacted (%d requests) although the configuration file must be rejected", len(a.lines))
+		case a.exit == 0:
+			bad = "exit status 0 although the configuration file must be rejected"
+		case !a.diag():
+			bad = "no diagnostic"
+		}
+		if bad != "" {
+			res.Fail(map[string]any{"pred": "other", "backend": c.Backend, "interlock": "config"},
+				fmt.Sprintf("approve (%s) with configuration line %q: %s", c.Front, c.CfgLine, bad), c)
+		} else {
+			res.Count("refused:config")
+		}
+	case c.BadConfig || c.Login == "enable-refused":
 		if changed {
 			res.Fail(map[string]any{"pred": "other", "backend": c.Backend}, "change sent although the device configuration could not be read", c)
 		}
@@ -1466,6 +1613,83 @@ func regexpStream(ctx *Ctx, res *Result, prop string) {
 	}
 }
 
+// configStream: the real program.LoadConfig (in-process, HOME pointing at a generated file) against
+// the model of LoadConfig (driver line `cfg`): error kind or the source of the checkbanner regexp.
+// Files: a basedir line (sometimes missing), checkbanner lines of many shapes (several words, quoted,
+// trailing blanks, tabs, metacharacters, invalid regexp, empty, no blanks around `=`, commented,
+// duplicated), other keys with one / several / non-numeric values, unknown keys, comments.
+func configStream(ctx *Ctx, res *Result, prop string, tmp string) {
+	drv := ctx.StartNadrv(strings.ToLower(prop))
+	defer drv.Close()
+	rng := ctx.Rng.Fork()
+	home := filepath.Join(tmp, "cfghome")
+	os.MkdirAll(home, 0755)
+	oldHome := os.Getenv("HOME")
+	defer os.Setenv("HOME", oldHome)
+	os.Setenv("HOME", home)
+	banners := []string{"checkbanner = NetSPoC", "checkbanner = managed by NetSPoC", "checkbanner = \"managed by NetSPoC\"", "checkbanner = NetSPoC   ",
+		"\tcheckbanner\t=\tNetSPoC", "  checkbanner   =   Net.*SPoC  ", "checkbanner = Net(SPoC", "checkbanner = [a-", "checkbanner = *x", "checkbanner = a)b",
+		"checkbanner = ", "checkbanner =", "checkbanner=NetSPoC", "checkbanner NetSPoC", "# checkbanner = NetSPoC", "#checkbanner = NetSPoC",
+		"checkbanner = managed.by.NetSPoC|NETSPOC", "checkbanner = (?i)netspoc", "checkbanner = Net\\s*SPoC", "checkbanner = NetSPoC # marker",
+		"checkbanner = = NetSPoC", "CheckBanner = NetSPoC", "checkbanner = NetSPoC\r"}
+	others := []string{"systemuser = admin", "systemuser = a b", "timeout = 30", "timeout = soon", "timeout = 1 2", "login_timeout = 5", "keep_history = 10",
+		"compress_at = 3", "netspoc_git = /git/netspoc", "admin_emails = a@example.com", "admin_emails = a@example.com b@example.com",
+		"server_ip_list = 10.1.1.1 10.1.1.2", "server_ip_list = 10.1.1.1", "unknown_key = 1", "unknown_key = 1 2", "# comment", "", "   ", "justoneword",
+		"key value", "basedir = /second"}
+	n := ctx.N(250, 4000)
+	for i := 0; i < n; i++ {
+		var lines []string
+		if !rng.Chance(5) {
+			lines = append(lines, "basedir = /home/netspoc")
+		}
+		k := rng.Intn(4)
+		for j := 0; j < k; j++ {
+			lines = append(lines, Pick(rng, others))
+		}
+		nb := Pick(rng, []int{0, 1, 1, 1, 2})
+		for j := 0; j < nb; j++ {
+			lines = append(lines, Pick(rng, banners))
+		}
+		Shuffle(rng, lines)
+		text := strings.Join(lines, "\n") + "\n"
+		os.WriteFile(filepath.Join(home, ".netspoc-approve"), []byte(text), 0644)
+		impl := ""
+		var cfg *program.Config
+		var err error
+		_, _, _, pm := Captured(func() int { cfg, err = program.LoadConfig(); return 0 })
+		switch {
+		case pm != "":
+			impl = "panic:" + pm
+		case err != nil:
+			e := err.Error()
+			switch {
+			case strings.HasPrefix(e, "Expected exactly one value"):
+				impl = "error:one-value"
+			case strings.HasPrefix(e, "Invalid regexp"):
+				impl = "error:regexp"
+			case strings.HasPrefix(e, "Expected integer") || strings.HasPrefix(e, "Expected positive integer"):
+				impl = "error:int"
+			case strings.HasPrefix(e, "Missing 'basedir'"):
+				impl = "error:basedir"
+			default:
+				impl = "error:" + e
+			}
+		default:
+			impl = "ok:-"
+			if b := cfg.GetVal("checkbanner"); cfg.CheckBanner != nil {
+				impl = "ok:" + esc(b)
+			}
+		}
+		model := drv.Ask("cfg\t" + esc(text))
+		res.Eval("cfg:"+text, nb > 0)
+		res.TracesVsImpl++
+		res.Count("config:" + strings.SplitN(impl, ":", 3)[0] + ":" + strings.SplitN(impl+":", ":", 3)[1][:min(8, len(strings.SplitN(impl+":", ":", 3)[1]))])
+		if impl != model {
+			res.Disagree("c06 LoadConfig (checkbanner)", text, impl, model)
+		}
+	}
+}
+
 func run(ctx *Ctx, prop string) *Result {
 	res := NewResult()
 	res.Rule = "case = device type × front end × reported hostname {ok, other, prefix, shorter, case} × marker {present, absent, " +
@@ -1532,6 +1756,7 @@ func run(ctx *Ctx, prop string) *Result {
 
 	if ctx.Replay == "" {
 		regexpStream(ctx, res, prop)
+		configStream(ctx, res, prop, tmp)
 	}
 	workers := 12
 	if len(cases) < workers {
